@@ -59,6 +59,16 @@ func (fc *FCtx) evalCall(e *ast.CallExpr, st *State) []Val {
 	}
 	key := funcKey(fn)
 	sig := fn.Type().(*types.Signature)
+	// declared key function
+	if c := fc.E.cs.Funcs[key]; c != nil && c.Flags["keyfn"] != "" {
+		var args []Val
+		for _, a := range e.Args {
+			args = append(args, fc.eval(a, st))
+		}
+		r := fc.keyFnApply(key, args)
+		r.GoT = fc.resT(e)
+		return []Val{r}
+	}
 	// contract call
 	if c := fc.E.cs.Funcs[key]; c != nil && c.Flags["inline"] == "" {
 		return fc.callByContract(c, fn, sig, e, recvExpr, st)
